@@ -116,6 +116,15 @@ CLAIMS = {
           'DAOStarFinder/IRAFStarFinder raw catalogues pushed through the Lean selection model and compared with find_stars. [partial] sharpness/roundness/marginal-fit numerics and the centroid-within-kernel clause are not modelled; StarFinder is probed only.',
   'note': 'Trusted: Lean kernel + standard axioms; hand model tied by differential testing; order among exactly tied values at the npeaks cut is unspecified (numpy argsort) and compared as a multiset.',
  },
+ 'C17': {
+  'design_ref': 'DESIGN.md §5 C17',
+  'technique': 'Lean 4 theorems on a model of centroid_com, the vertex rule of centroid_quadratic and the centroid_sources loop (skeleton flags regenerated from the source) + correspondence and symmetry oracles',
+  'text': 'Proved in Lean (exact arithmetic): centroid_com ignores values under masked pixels and is invariant under any non-zero rescaling (com_mask_blind, com_scale); the point returned by the vertex rule of centroid_quadratic is the unique stationary point of the fitted quadratic, lies strictly inside the image and exists only for a negative-definite Hessian, and conversely every strict interior maximum is returned, never NaN '
+          '(quadratic_vertex_exact, quadratic_vertex_found); for the loop skeleton extracted from centroid_sources on every run (keyword dict re-derived per source, not mutated in the loop, both origin additions present) the result for each position is the centroid function applied to that position\'s cut-out with keywords derived from the caller\'s, independent of other positions and of their order '
+          '(centroid_sources_per_source, centroid_sources_perm, both_origins_added). [param] lstsq is a parameter. [partial] flip/transpose/symmetry laws are checked on the implementation for all four centroid functions, not proved. '
+          'Tie: centroid_com vs the model exactly on dyadic cut-outs with masks/NaN; centroid_quadratic on exactly quadratic peaks vs the model fed the true coefficients; py2intround on half-integers; centroid_sources vs per-cut-out calls (footprint/mask/error/xpeak).',
+  'note': 'Trusted: Lean kernel + standard axioms; AST extractor of the loop skeleton; numpy lstsq; Gaussian fits (astropy fitters) not modelled. centroid_quadratic is tested for symmetry only when the symmetry centre is a pixel centre (its odd fit box cannot be centred otherwise).',
+ },
 }
 
 _todo = 'check not built yet in this round (see DESIGN.md §10 build order); not claimed until its machinery is committed'
